@@ -69,6 +69,7 @@ def run(F, R, ctx):
     rest_collapse_rule(F, R)
     opcode_rewrite_rule(F, R)
     traversal_rule(F, R)
+    fold_roundtrip_rule(F, R)
 
 
 # the walkers whose result decides how an assigned variable is compiled: they must see every sub-expression
@@ -522,3 +523,76 @@ def opcode_rewrite_rule(F, R):
                    "(define (f) (cons 1)) panics the host in the CONS handler — instead of an arity error" % (
                        op, fn.blocks[b].get("line") or [x[3] for x in fn.blocks[b]["e"] if x[0] == "agg"][:1]),
                    fn.loc(), sample=True)
+
+
+def fold_roundtrip_rule(F, R):
+    R.rule("C01.q", "compile-time folding hands back what evaluation would give (the value/expression converters the constant "
+                    "folder uses are inverse on kinds): (1) in TryFrom<&SteelVal> for ExprKind — the conversion of a folded "
+                    "result back into an expression — the arm of each container kind builds the expression of the same kind "
+                    "(VectorV → ExprKind::Vector, ListV → ExprKind::List); (2) wherever the inside of a quote form "
+                    "(Quote.expr) is turned into a value, the converter is entered in quoted mode "
+                    "(try_from_expr_kind_quoted): in unquoted mode it strips the next quote it meets, so (car '('x 1)) "
+                    "folds to x")
+    inner = [f for n, f in F.fns.items() if re.search(r"\{impl TryFrom<&SteelVal> for ExprKind\}::try_from::inner_try_from$", n)]
+    if not inner:
+        inner = [f for n, f in F.fns.items() if re.search(r"\{impl TryFrom<&SteelVal> for ExprKind\}::try_from$", n)]
+    if not inner:
+        raise CheckError("anchor lost: TryFrom<&SteelVal> for ExprKind")
+    fn = inner[0]
+    sws = lib.enum_switches(fn, "SteelVal")
+    if not sws:
+        raise CheckError("anchor lost: TryFrom<&SteelVal> for ExprKind does not match on SteelVal")
+    sw = max(sws, key=lambda x: len(fn.blocks[x]["targets"]))
+    am = lib.arm_map(fn, sw)
+    n = 0
+    for kind, want in (("VectorV", "Vector"), ("ListV", "List")):
+        if kind not in am or am[kind] == am.get("_"):
+            continue
+        n += 1
+        others = {t for v, t in am.items() if t != am[kind]}
+        reg = fn.reachable_from([am[kind]], avoid=others)
+        built = sorted(set(e[2] for b in reg for e in fn.blocks[b]["e"] if e[0] == "agg" and e[1] == "ExprKind"))
+        R.inst("C01.q", "value -> expression / %s becomes ExprKind::%s" % (kind, want), built == [want],
+               "TryFrom<&SteelVal> for ExprKind turns a %s into ExprKind::%s: a container folded at compile time comes back as "
+               "a different kind of datum ((car '(#(q) 1)) folds to the list (q); vector? / vector-ref then fail on it)"
+               % (kind, "/".join(built) or "nothing"), fn.loc(fn.blocks[am[kind]].get("line")), sample=True)
+    R.floor("C01.q", "container kinds converted back to expressions", n, 2)
+    m = 0
+    for name, f in sorted(F.fns.items()):
+        if not name.startswith("steel::"):
+            continue
+        for i, cb in f.calls():
+            if not re.search(r"TryFromExprKindForSteelVal\}::try_from_expr_kind(_quoted)?$", cb["callee"]):
+                continue
+            srcs = set()
+            work = [t_ for a in cb["args"] for t_ in lib.TOK.findall(a)]
+            seen_t = set()
+            while work:
+                t_ = work.pop()
+                if t_ in seen_t:
+                    continue
+                seen_t.add(t_)
+                al = set(lib.alias_sources(f, t_, depth=8)) | {t_}
+                srcs |= al
+                bases = {x.split(".")[0] for s_ in al for x in lib.TOK.findall(s_)}
+                for _, c2 in f.calls():
+                    d2 = re.match(r"_\d+", c2.get("dest") or "")
+                    if d2 and d2.group(0) in bases and re.search(r"::(clone|deref|as_ref|borrow|unbox|into)$", c2["callee"]):
+                        work.extend(x for a2 in c2["args"] for x in lib.TOK.findall(a2))
+            from_quote = False
+            for b in f.blocks:
+                if b["c"]:
+                    continue
+                if any(e[0] == "fld" and e[1] == "Quote" and e[2] == "expr" for e in b["e"]):
+                    for e in b["e"]:
+                        if e[0] == "mv" and re.search(r"\.expr\b", e[2]) and (e[1].split(".")[0] in {x.split(".")[0] for s_ in srcs for x in lib.TOK.findall(s_)}):
+                            from_quote = True
+            if not from_quote:
+                continue
+            m += 1
+            quoted = cb["callee"].endswith("_quoted")
+            R.inst("C01.q", "%s / the inside of a quote form is converted in quoted mode" % f.short(), quoted,
+                   "%s converts Quote.expr — data that is already inside a quote — with try_from_expr_kind (unquoted mode, line "
+                   "%s), which treats the first quote it meets as the enclosing one and strips it: '(a 'b) becomes (a b) "
+                   "wherever the constant folder looks at it" % (f.short(), cb["line"]), f.loc(cb["line"]), sample=True)
+    R.floor("C01.q", "conversions of the inside of a quote form", m, 1)
